@@ -351,6 +351,7 @@ type Node struct {
 	lis      *bufconn.Listener
 	client   *grpc.ClientConn
 	Down     bool
+	lives    int
 	sentinel *Conn
 	sentN    int
 	sentBuf  []byte
@@ -372,7 +373,51 @@ func nopCtx() context.Context {
 // AddNode builds and starts a node.
 func (cl *Cluster) AddNode(o NodeOpts) (*Node, error) {
 	id := uint64(len(cl.Nodes) + 1)
-	n := &Node{ID: id, Name: fmt.Sprintf("n%d", id), cl: cl, Dir: o.Dir}
+	n, err := cl.buildNode(id, fmt.Sprintf("n%d", id), o)
+	if err != nil {
+		return nil, err
+	}
+	cl.Nodes = append(cl.Nodes, n)
+	return n, nil
+}
+
+// RestartNode replaces the failed node at index i by a new broker process with the same
+// node id (an empty data directory and empty state: the machine was replaced). The
+// survivors are told through NotifyGossipJoin and the newcomer does a push/pull exchange
+// with the first live node, as memberlist does on join. Session ids of the new life carry a
+// different prefix so that they never collide with those of the first one.
+func (cl *Cluster) RestartNode(i int) (*Node, error) {
+	old := cl.Nodes[i]
+	if !old.Down {
+		return old, nil
+	}
+	old.lives++
+	n, err := cl.buildNode(old.ID, old.Name, NodeOpts{Auth: &MountAuth{prefix: fmt.Sprintf("%sr%d", old.Name, old.lives)}})
+	if err != nil {
+		return nil, err
+	}
+	n.lives = old.lives
+	cl.mu.Lock()
+	cl.Nodes[i] = n
+	cl.mu.Unlock()
+	for _, s := range cl.Nodes {
+		if s != n && !s.Down {
+			s.Members.NotifyGossipJoin(n.ID)
+			n.Members.NotifyGossipJoin(s.ID)
+		}
+	}
+	for _, s := range cl.Nodes {
+		if s != n && !s.Down {
+			cl.FullSync(n, s)
+			break
+		}
+	}
+	atomic.AddInt64(&cl.activity, 1)
+	return n, nil
+}
+
+func (cl *Cluster) buildNode(id uint64, name string, o NodeOpts) (*Node, error) {
+	n := &Node{ID: id, Name: name, cl: cl, Dir: o.Dir}
 	if n.Dir == "" {
 		d, err := os.MkdirTemp(cl.TmpRoot, "node")
 		if err != nil {
@@ -435,7 +480,6 @@ func (cl *Cluster) AddNode(o NodeOpts) (*Node, error) {
 		return nil, err
 	}
 	n.Local.real.Create(n.sentinelID(), ss)
-	cl.Nodes = append(cl.Nodes, n)
 	return n, nil
 }
 
